@@ -138,6 +138,31 @@ func plan(thorough bool) []History {
 			}
 		}
 	}
+	// (f) S1 accepted, then the wallet learns of an external unconfirmed
+	// transaction E1 spending S1's EXTERNAL payment output and paying the
+	// wallet; optionally a wallet child S2 (spends S1's change and E1's
+	// output); then a resynchronisation: every answer class for every
+	// rebroadcast position (a rejected S1 must take E1 and S2 with it)
+	for _, e1 := range eps {
+		for _, end := range syncs {
+			if !thorough && e1 == "publish" {
+				continue
+			}
+			p = append(p, History{Coins: 1, EP1: e1, ExtChild: true, End: end, A1: "reduced"})
+		}
+	}
+	for _, e := range eps {
+		for _, end := range syncs {
+			if !thorough && (e != "send" || end != "restart") {
+				continue
+			}
+			a2 := "tiny"
+			if thorough && e == "send" && end == "restart" {
+				a2 = "reduced"
+			}
+			p = append(p, History{Coins: 1, EP1: e, ExtChild: true, EP2: e, End: end, A1: "tiny", A2: a2})
+		}
+	}
 	return p
 }
 
@@ -167,7 +192,7 @@ func claim(k int) bool {
 	return true
 }
 
-const rule = "every history of the plan (funding 1|2 coins, optional lease, S1 and optional child S2 through SendOutputs|PublishTransaction, optional restart|rescan resynchronisation between and after them, optional block confirming S1; and 2|3 independent transactions T1..Tn each spending its own coin, optional child of T1, then a restart|rescan resynchronisation) x every backend answer at every broadcast (dynamic choice points, odometer enumeration); after each broadcasting call: error or rejecting answer => unconfirmed set, balances(0..3) and spendable set equal the observation before the call and the tx is unknown; accept/already-in-mempool => call succeeds, tx recorded exactly once, balance(0) = before - inputs + change; already-known/confirmed => call succeeds; after each resynchronisation: the backend was offered exactly the unconfirmed set, each once, parents first, rejected ones and their descendants are gone, their inputs are spendable again, their outputs no longer count and (when nothing unrelated was sent since) the state equals the observation before they were first sent; non-trivial = executions with at least one non-accept answer"
+const rule = "every history of the plan (funding 1|2 coins, optional lease, S1 and optional child S2 through SendOutputs|PublishTransaction, optional restart|rescan resynchronisation between and after them, optional block confirming S1; and 2|3 independent transactions T1..Tn each spending its own coin, optional child of T1, then a restart|rescan resynchronisation; and S1 followed by an externally built unconfirmed transaction E1 that spends S1's external output and pays the wallet, optional wallet child S2, then a resynchronisation) x every backend answer at every broadcast (dynamic choice points, odometer enumeration); after each broadcasting call: error or rejecting answer => unconfirmed set, balances(0..3) and spendable set equal the observation before the call and the tx is unknown; accept/already-in-mempool => call succeeds, tx recorded exactly once, balance(0) = before - inputs + change; already-known/confirmed => call succeeds; after each resynchronisation: the backend was offered exactly the unconfirmed set, each once, parents first, rejected ones and their descendants are gone, their inputs are spendable again, their outputs no longer count and (when nothing unrelated was sent since) the state equals the observation before they were first sent; non-trivial = executions with at least one non-accept answer"
 
 // Run is the entry point: args[0] = quick | thorough.
 func Run(args []string) {
